@@ -16,36 +16,7 @@ NAME = "call"
 RLIMIT = 120
 TIMEOUT = 900
 
-MODEL = r"""
-// ---- A-lock model: Arc<Mutex<T>> is a transparent wrapper (locking always succeeds, no aliasing claim)
-pub struct Mutex<T>(pub T);
-pub struct Arc<T>(pub T);
-impl<T> Mutex<T> { pub fn new(t: T) -> (r: Self) ensures r.0 == t { Mutex(t) } }
-impl<T> Arc<T> { pub fn new(t: T) -> (r: Self) ensures r.0 == t { Arc(t) } }
-macro_rules! lock_deref {
-    ( $x:ident ) => { $x.0.0 };
-}
-pub type Str = Vec<u8>;
-pub type List = Vec<SourcedValue>;
-pub type ListRef = Arc<Mutex<List>>;
-// D3: opaque
-#[verifier::external_body]
-pub struct ObjectRef { _p: () }
-#[verifier::external_body]
-pub struct BuiltinFunc { _p: () }
-
-impl Clone for Value {
-    #[verifier::external_body]
-    fn clone(&self) -> (r: Self) ensures r == *self { unimplemented!() }
-}
-impl Clone for SourcedValue {
-    #[verifier::external_body]
-    fn clone(&self) -> (r: Self) ensures r == *self { unimplemented!() }
-}
-// std: <[T]>::to_vec clones every element
-pub assume_specification<T: Clone> [<[T]>::to_vec] (s: &[T]) -> (r: Vec<T>)
-    ensures r@.len() == s@.len(), forall|i: int| 0 <= i < s@.len() ==> call_ensures(T::clone, (&s@[i],), #[trigger] r@[i]);
-
+MODEL = parts.VALUE_MODEL + r"""
 // ---- D2: callees
 pub uninterp spec fn sem_items(w: W, items: Seq<ListItem>) -> (Result<Vec<SourcedValue>>, W);
 pub uninterp spec fn sem_expr(w: W, e: Expr) -> (Result<SourcedValue>, W);
